@@ -1,7 +1,11 @@
 //! C01: save then load returns the same document (bounded stand-in for the reader half; complete for f32 in thorough).
 //! c01-roundtrip enumerates, besides the documents of gen::docs and the stream-body family: the transport (how many bytes the
 //! destination of save_to accepts / the source of load_from delivers per call), the nesting depth of arrays and dictionaries,
-//! and histories of save/load cycles on one thread (C01 is unconditional: it holds whatever was saved and loaded before).
+//! and histories of save/load cycles on one thread (C01 is unconditional: it holds whatever was saved and loaded before);
+//! the key set of an indirect dictionary / stream dictionary over the key names that ISO 32000-1 uses for the structure of a
+//! file, crossed with the /Type entry (keys are arbitrary names: a key only means something together with the /Type);
+//! and the provenance of the in-memory document: not only documents built from scratch, but every document reached from one
+//! through a short script of public-API edits and save / save+load steps (C01 checked at every save of the script).
 use crate::c03::{obj_json, obj_from_json, spec_from_json, spec_json};
 use crate::common::*;
 use crate::gen::*;
@@ -160,6 +164,133 @@ fn stream_diag(spec: &DocSpec, sid: (u32, u16), body: &[u8]) -> (String, String)
         Ok(Err(e)) => ("load of a saved document with a stream failed".into(), e.to_string()),
         Err(p) => ("load of a saved document with a stream panicked".into(), p),
     }
+}
+
+/// The key names to which ISO 32000-1 gives a meaning for the STRUCTURE of a file or of the document tree (as opposed to the
+/// content of one object): the linearization parameter dictionary (annex F, table F.1), object streams (7.5.7), cross-reference
+/// streams (7.5.8), the trailer (7.5.5), stream dictionaries (7.3.8.2) and the catalog / page tree (7.7.2, 7.7.3). "Dictionary
+/// keys are arbitrary names": any of them may occur in any dictionary, where it is an ordinary entry.
+pub const STRUCT_KEYS: [&[u8]; 32] = [
+    b"Linearized", b"L", b"H", b"O", b"E", b"N", b"T", b"P",
+    b"First", b"Extends",
+    b"Size", b"Index", b"Prev", b"W",
+    b"Root", b"Encrypt", b"Info", b"ID", b"XRefStm",
+    b"Length", b"Filter", b"DecodeParms", b"F", b"FFilter", b"FDecodeParms", b"DL",
+    b"Subtype", b"Parent", b"Kids", b"Count", b"Contents", b"Pages",
+];
+
+/// the /Type entry of the host: absent, not a name, the types of the document structure, the two types of file-structure
+/// objects, and a private type
+fn host_types() -> Vec<Option<Object>> {
+    let mut v = vec![None, Some(Object::Integer(1))];
+    for t in [&b"Catalog"[..], b"Pages", b"Page", b"Font", b"XObject", b"Metadata", b"ObjStm", b"XRef", b"Zz"] { v.push(Some(name(t))); }
+    v
+}
+
+fn key_values() -> Vec<Object> { vec![Object::Boolean(true), Object::Integer(1), name(b"V"), Object::Array(vec![Object::Integer(0), Object::Integer(1)]), Object::Reference((1, 0))] }
+
+/// all subsets of 1..=max indices below n, smallest first
+fn subsets(n: usize, max: usize) -> Vec<Vec<usize>> {
+    let mut out: Vec<Vec<usize>> = vec![];
+    let mut level: Vec<Vec<usize>> = vec![vec![]];
+    for _ in 0..max {
+        let mut next = vec![];
+        for s in &level { for i in s.last().map(|l| l + 1).unwrap_or(0)..n { let mut t = s.clone(); t.push(i); next.push(t); } }
+        out.extend(next.iter().cloned());
+        level = next;
+    }
+    out
+}
+
+/// Is `o` one of the objects that only describe the layout of a file (ISO 32000-1: an object stream or a cross-reference stream,
+/// which carry /Type /ObjStm resp. /Type /XRef, or the linearization parameter dictionary, which has no /Type and is recognised
+/// by its Linearized entry)? Every other object is part of the document and has to survive. Written from the standard, without
+/// the library's `type_name`; the module reports it if the two ever disagree on an enumerated host.
+fn is_file_structure_by_iso(o: &Object) -> bool {
+    let d = match o { Object::Dictionary(d) => d, Object::Stream(s) => &s.dict, _ => return false };
+    let ty: Option<&[u8]> = d.iter().find(|(k, _)| k.as_slice() == b"Type").and_then(|(_, v)| match v { Object::Name(n) => Some(n.as_slice()), _ => None });
+    match ty { Some(t) => t == b"ObjStm" || t == b"XRef" || t == b"Linearized", None => d.iter().any(|(k, _)| k.as_slice() == b"Linearized") }
+}
+
+/// one host of the key dimension: a dictionary (`stream` false) or a stream whose dictionary has the /Type entry `ty` (first)
+/// and then the keys `keys` of STRUCT_KEYS, all with the value `val`
+fn key_host(stream: bool, ty: &Option<Object>, keys: &[usize], val: &Object) -> Object {
+    let mut d = lopdf::Dictionary::new();
+    if let Some(t) = ty { d.set("Type", t.clone()); }
+    for &k in keys { d.set(STRUCT_KEYS[k].to_vec(), val.clone()); }
+    if stream { Object::Stream(lopdf::Stream::new(d, b"q Q".to_vec())) } else { Object::Dictionary(d) }
+}
+
+/// the document a host object is placed in: alone (and /Root), or between two other objects (sparse ids, generation 2,
+/// referenced from the object after it)
+fn host_spec(o: Object, layout: usize, xs: bool) -> (DocSpec, (u32, u16)) {
+    if layout == 0 {
+        (DocSpec { objects: vec![((1, 0), o)], xref_stream: xs, version: "1.5".into(), extra_trailer: false, max_id_slack: 0 }, (1, 0))
+    } else {
+        (DocSpec { objects: vec![((1, 0), Object::Integer(7)), ((3, 2), o), ((6, 0), Object::Dictionary(dict(vec![(b"Next", Object::Reference((3, 2)))])))], xref_stream: xs, version: "1.7".into(), extra_trailer: true, max_id_slack: 1 }, (3, 2))
+    }
+}
+
+/// The provenance dimension of the quantifier ("for every in-memory document ... remains true when the cycle is repeated"): an
+/// in-memory document is not only one built from scratch; it is any value reachable through the public API, in particular one
+/// that was saved before (save_to takes `&mut self`), one that came out of a load, and one that was edited after either.
+/// A script is a sequence of these steps applied to one document value:
+///  S  save it (C01: the produced bytes load to a document equal to the value before the save) and go on with the SAME value
+///  L  the same, and go on with the LOADED document
+///  A  add_object (the k-th addition of a script adds a dictionary, a stream, an array referring to the highest object, ...)
+///  M  set_object: replace the highest-numbered object by a new dictionary
+///  R  remove the lowest-numbered object
+///  T  point the trailer entry /Info at the highest-numbered object
+///  X  switch the cross-reference format the document will be saved with
+///  N  new_object_id: reserve an object number without giving it an object
+/// After the last step: C01 for the resulting value (check_document: two cycles, both compared with that value).
+pub const STEPS: &[u8] = b"SLAMRTXN";
+
+fn step_name(c: u8) -> &'static str {
+    match c {
+        b'S' => "save (keep the same value)", b'L' => "save, load, continue with the loaded document", b'A' => "add_object", b'M' => "set_object on the highest-numbered object",
+        b'R' => "remove the lowest-numbered object", b'T' => "trailer /Info -> highest-numbered object", b'X' => "switch the cross-reference format", b'N' => "new_object_id", _ => "?",
+    }
+}
+
+fn steps_text(steps: &[u8]) -> String { if steps.is_empty() { "(none)".into() } else { steps.iter().enumerate().map(|(i, &c)| format!("{}. {}", i + 1, step_name(c))).collect::<Vec<_>>().join("; ") } }
+
+/// all scripts of length 0..=max over STEPS, shortest first
+pub fn scripts(max: usize) -> Vec<Vec<u8>> { seqs(STEPS, max) }
+
+/// Run a script on the document of `spec`. Err((i, obligation, detail)): the C01 check at step i (0-based; steps.len() for the
+/// final check) failed. The oracle is `compare` against a clone of the in-memory value taken immediately before the save.
+pub fn check_script(spec: &DocSpec, steps: &[u8]) -> Result<(), (usize, String, String)> {
+    let mut d = build(spec);
+    let mut adds = 0i64;
+    for (i, &c) in steps.iter().enumerate() {
+        let highest = d.objects.keys().next_back().copied();
+        match c {
+            b'S' | b'L' => {
+                let before = d.clone();
+                let bytes = save_via(&mut d, &[]).map_err(|e| (i, "save".to_string(), e))?;
+                let loaded = load_via(&bytes, &[]).map_err(|e| (i, "load-equals-saved".to_string(), e))?;
+                compare(&before, &loaded).map_err(|e| (i, "load-equals-saved".to_string(), e))?;
+                if c == b'L' { d = loaded; }
+            }
+            b'A' => {
+                let o = match adds % 3 {
+                    0 => Object::Dictionary(dict(vec![(b"Title", lit(b"added later")), (b"Nth", Object::Integer(adds))])),
+                    1 => Object::Stream(lopdf::Stream::new(dict(vec![(b"Nth", Object::Integer(adds))]), b"BT (added) Tj ET".to_vec())),
+                    _ => Object::Array(vec![Object::Integer(adds), Object::Reference(highest.unwrap_or((1, 0)))]),
+                };
+                adds += 1;
+                d.add_object(o);
+            }
+            b'M' => if let Some(id) = highest { d.set_object(id, Object::Dictionary(dict(vec![(b"Kind", name(b"Changed")), (b"At", Object::Integer(i as i64))]))); },
+            b'R' => if let Some(id) = d.objects.keys().next().copied() { d.objects.remove(&id); },
+            b'T' => { d.trailer.set("Info", Object::Reference(highest.unwrap_or((1, 0)))); }
+            b'X' => { d.reference_table.cross_reference_type = match d.reference_table.cross_reference_type { lopdf::xref::XrefType::CrossReferenceStream => lopdf::xref::XrefType::CrossReferenceTable, _ => lopdf::xref::XrefType::CrossReferenceStream }; }
+            b'N' => { d.new_object_id(); }
+            _ => {}
+        }
+    }
+    check_document(&d, &[]).map_err(|(ob, e)| (steps.len(), ob, e))
 }
 
 /// The nesting dimension of the quantifier ("any mix of the ten object kinds nested arbitrarily"): one document whose
@@ -347,9 +478,9 @@ fn schedules(thorough: bool) -> Vec<Vec<usize>> {
 
 pub fn roundtrip(thorough: bool) -> Report {
     let mut rep = Report::new(if thorough {
-        "all documents of gen::docs (both xref formats); plus the stream-body family: every stream body of 0..=2 bytes over all 256 byte values, alone in a document; every body prefix++core++suffix with prefix in all strings of length<=3 and suffix in all strings of length<=2 over {NUL,TAB,LF,FF,CR,SP,'x',0xFF} and core in {empty, content stream, text containing endstream/endobj, binary}, and runs of 4..=64 equal white-space bytes before/after each core, each alone and between two other objects (sparse ids, generation 2, non-empty stream dictionary); all x both xref formats; two save/load cycles each; plus the transport dimension: every document of gen::docs (quick set) saved to a destination that accepts at most s[i mod len] bytes on its i-th write call and loaded both from memory and through load_from from a source delivering the same pieces, s in {[1]..[9],[13],[19],[64],[512],[4096],[1,2,3,5,8,13],[1000,1]}; plus the nesting dimension: the leaf 7 enclosed by d = 1..=64 containers, shapes {arrays, dictionaries, alternating from an array, alternating from a dictionary} x places {only indirect object, indirect object between two others, trailer entry, stream-dictionary entry} x both xref formats, each on a fresh thread; plus the history dimension (r save/load cycles of A, then C01 for B, on one thread that does all of the library's work; the histories are run back to back on one long-lived thread per core, so each also follows all earlier ones of its thread, and a failure is confirmed on a fresh thread with the shortest suffix of its thread's sequence that reproduces it): H1 A,B nesting documents of equal shape and xref format, shapes all four, A depths 1..=64 x 4 places, B depths 1..=64 x 4 places, r in {1,2,4}, and r in {8,16,32,64} for A depths {1,2,4,8,16,32,64} and A, B in the same place; H2 every ordered pair of gen::docs documents (quick set) with equal xref format, r = 1"
+        "all documents of gen::docs (both xref formats); plus the stream-body family: every stream body of 0..=2 bytes over all 256 byte values, alone in a document; every body prefix++core++suffix with prefix in all strings of length<=3 and suffix in all strings of length<=2 over {NUL,TAB,LF,FF,CR,SP,'x',0xFF} and core in {empty, content stream, text containing endstream/endobj, binary}, and runs of 4..=64 equal white-space bytes before/after each core, each alone and between two other objects (sparse ids, generation 2, non-empty stream dictionary); all x both xref formats; two save/load cycles each; plus the transport dimension: every document of gen::docs (quick set) saved to a destination that accepts at most s[i mod len] bytes on its i-th write call and loaded both from memory and through load_from from a source delivering the same pieces, s in {[1]..[9],[13],[19],[64],[512],[4096],[1,2,3,5,8,13],[1000,1]}; plus the nesting dimension: the leaf 7 enclosed by d = 1..=64 containers, shapes {arrays, dictionaries, alternating from an array, alternating from a dictionary} x places {only indirect object, indirect object between two others, trailer entry, stream-dictionary entry} x both xref formats, each on a fresh thread; plus the history dimension (r save/load cycles of A, then C01 for B, on one thread that does all of the library's work; the histories are run back to back on one long-lived thread per core, so each also follows all earlier ones of its thread, and a failure is confirmed on a fresh thread with the shortest suffix of its thread's sequence that reproduces it): H1 A,B nesting documents of equal shape and xref format, shapes all four, A depths 1..=64 x 4 places, B depths 1..=64 x 4 places, r in {1,2,4}, and r in {8,16,32,64} for A depths {1,2,4,8,16,32,64} and A, B in the same place; H2 every ordered pair of gen::docs documents (quick set) with equal xref format, r = 1; plus the key dimension: one indirect dictionary or stream whose dictionary has a /Type entry in {absent, the integer 1, /Catalog, /Pages, /Page, /Font, /XObject, /Metadata, /ObjStm, /XRef, /Zz} followed by every subset of 1..=3 of the 32 key names that ISO 32000-1 uses for file and document structure (Linearized L H O E N T P First Extends Size Index Prev W Root Encrypt Info ID XRefStm Length Filter DecodeParms F FFilter FDecodeParms DL Subtype Parent Kids Count Contents Pages; Length not in stream dictionaries), all entries of one host with the same value in {true, 1, /V, [0 1], 1 0 R} (subsets of 3 keys: true only), each alone and between two other objects (sparse ids, generation 2), both xref formats, two cycles each; plus the provenance dimension: every document of gen::docs (quick set) taken through every script of 1..=3 steps, and every 7th of them through every script of 4 steps, over {S save and keep the value, L save+load and continue with the loaded document, A add_object (dictionary / stream / array by turns), M set_object on the highest-numbered object, R remove the lowest-numbered object, T trailer /Info -> highest-numbered object, X switch the xref format, N new_object_id}, C01 checked at every S and L (loaded document equals a clone taken just before the save) and by two cycles after the last step"
     } else {
-        "all documents of gen::docs (both xref formats); plus the stream-body family: every stream body of 0..=2 bytes over all 256 byte values, alone in a document; every body prefix++core++suffix with prefix in all strings of length<=2 and suffix in all strings of length<=1 over {NUL,TAB,LF,FF,CR,SP,'x',0xFF} and core in {empty, content stream, text containing endstream/endobj, binary}, and runs of 3..=16 equal white-space bytes before/after each core, each alone and between two other objects (sparse ids, generation 2, non-empty stream dictionary); all x both xref formats; two save/load cycles each; plus the transport dimension: every document of gen::docs (quick set) saved to a destination that accepts at most s[i mod len] bytes on its i-th write call and loaded both from memory and through load_from from a source delivering the same pieces, s in {[1],[2],[3],[7],[64],[1,2,3,5,8,13]}; plus the nesting dimension: the leaf 7 enclosed by d = 1..=40 containers, shapes {arrays, dictionaries, alternating from an array, alternating from a dictionary} x places {only indirect object, indirect object between two others, trailer entry, stream-dictionary entry} x both xref formats, each on a fresh thread; plus the history dimension (r save/load cycles of A, then C01 for B, on one thread that does all of the library's work; the histories are run back to back on one long-lived thread per core, so each also follows all earlier ones of its thread, and a failure is confirmed on a fresh thread with the shortest suffix of its thread's sequence that reproduces it): H1 A,B nesting documents of equal shape and xref format, shapes {arrays, alternating from an array}, A depths {1,2,4,8,16,32,40} x 4 places, B depths 1..=40 x 4 places, r in {1,2,4}; H2 every ordered pair of gen::docs documents (quick set) with equal xref format, r = 1"
+        "all documents of gen::docs (both xref formats); plus the stream-body family: every stream body of 0..=2 bytes over all 256 byte values, alone in a document; every body prefix++core++suffix with prefix in all strings of length<=2 and suffix in all strings of length<=1 over {NUL,TAB,LF,FF,CR,SP,'x',0xFF} and core in {empty, content stream, text containing endstream/endobj, binary}, and runs of 3..=16 equal white-space bytes before/after each core, each alone and between two other objects (sparse ids, generation 2, non-empty stream dictionary); all x both xref formats; two save/load cycles each; plus the transport dimension: every document of gen::docs (quick set) saved to a destination that accepts at most s[i mod len] bytes on its i-th write call and loaded both from memory and through load_from from a source delivering the same pieces, s in {[1],[2],[3],[7],[64],[1,2,3,5,8,13]}; plus the nesting dimension: the leaf 7 enclosed by d = 1..=40 containers, shapes {arrays, dictionaries, alternating from an array, alternating from a dictionary} x places {only indirect object, indirect object between two others, trailer entry, stream-dictionary entry} x both xref formats, each on a fresh thread; plus the history dimension (r save/load cycles of A, then C01 for B, on one thread that does all of the library's work; the histories are run back to back on one long-lived thread per core, so each also follows all earlier ones of its thread, and a failure is confirmed on a fresh thread with the shortest suffix of its thread's sequence that reproduces it): H1 A,B nesting documents of equal shape and xref format, shapes {arrays, alternating from an array}, A depths {1,2,4,8,16,32,40} x 4 places, B depths 1..=40 x 4 places, r in {1,2,4}; H2 every ordered pair of gen::docs documents (quick set) with equal xref format, r = 1; plus the key dimension: one indirect dictionary or stream whose dictionary has a /Type entry in {absent, the integer 1, /Catalog, /Pages, /Page, /Font, /XObject, /Metadata, /ObjStm, /XRef, /Zz} followed by every subset of 1..=2 of the 32 key names that ISO 32000-1 uses for file and document structure (Linearized L H O E N T P First Extends Size Index Prev W Root Encrypt Info ID XRefStm Length Filter DecodeParms F FFilter FDecodeParms DL Subtype Parent Kids Count Contents Pages; Length not in stream dictionaries), all entries of one host with the same value true, each alone and between two other objects (sparse ids, generation 2), both xref formats, two cycles each; plus the provenance dimension: every document of gen::docs (quick set) taken through every script of 1..=2 steps, and every 7th of them through every script of 3 steps, over {S save and keep the value, L save+load and continue with the loaded document, A add_object (dictionary / stream / array by turns), M set_object on the highest-numbered object, R remove the lowest-numbered object, T trailer /Info -> highest-numbered object, X switch the xref format, N new_object_id}, C01 checked at every S and L (loaded document equals a clone taken just before the save) and by two cycles after the last step"
     }, true);
     for s in docs(thorough) {
         rep.case(!s.objects.is_empty());
@@ -396,6 +527,65 @@ pub fn roundtrip(thorough: bool) -> Report {
             rep.fail(&format!("short-writes-{}", ob), detail, json!({"kind": "transport", "spec": spec_json(&quick_docs[i]), "schedule": scheds[j]}), d);
         }
     }
+
+    // the key dimension: an indirect dictionary / stream whose key set ranges over the subsets of STRUCT_KEYS, crossed with its
+    // /Type entry; "Length" is left out for streams (there it is the writer's own entry)
+    let types = host_types();
+    let vals: Vec<Object> = { let v = key_values(); if thorough { v } else { v[..1].to_vec() } };
+    let subs = subsets(STRUCT_KEYS.len(), if thorough { 3 } else { 2 });
+    let mut kjobs: Vec<(bool, usize, usize, usize)> = vec![];
+    for st in [false, true] { for t in 0..types.len() { for k in 0..subs.len() { for v in 0..vals.len() {
+        if st && subs[k].iter().any(|&i| STRUCT_KEYS[i] == b"Length") { continue; }
+        if subs[k].len() > 2 && v > 0 { continue; }   // subsets of three keys: with the first value only
+        kjobs.push((st, t, k, v));
+    } } } }
+    let kres: Vec<(u64, u64, Vec<(String, String, Value, String)>)> = kjobs.par_iter().map(|&(st, t, k, v)| {
+        let host = key_host(st, &types[t], &subs[k], &vals[v]);
+        let ordinary = !is_file_structure_by_iso(&host);
+        let mut fails = vec![];
+        let what = || format!("a {} with {} and the entries {} (all with the value {:?})", if st { "stream whose dictionary" } else { "dictionary" },
+            match &types[t] { None => "no /Type".to_string(), Some(Object::Name(n)) => format!("/Type /{}", String::from_utf8_lossy(n)), Some(o) => format!("/Type {:?}", o) },
+            subs[k].iter().map(|&i| format!("/{}", String::from_utf8_lossy(STRUCT_KEYS[i]))).collect::<Vec<_>>().join(" "), vals[v]);
+        if ordinary == is_bookkeeping_object(&host) { fails.push(("dictionary-keys-oracle".to_string(), format!("the module's two classifications of file-structure objects disagree on {}", what()), json!({"kind": "doc", "spec": spec_json(&host_spec(host.clone(), 0, false).0)}), String::new())); }
+        let mut n = 0;
+        for layout in 0..2 { for xs in [false, true] {
+            n += 1;
+            let (spec, hid) = host_spec(host.clone(), layout, xs);
+            if let Err((ob, d)) = check_doc(&spec) {
+                let detail = format!("an ordinary {} of the document does not survive save+load: object {} {} ({}, xref {}) is {}: {}", if st { "stream" } else { "dictionary" }, hid.0, hid.1, if layout == 0 { "alone" } else { "between two objects" }, if xs { "stream" } else { "table" }, what(), d);
+                fails.push((format!("dictionary-keys-{}", ob), detail, json!({"kind": "doc", "spec": spec_json(&spec)}), d));
+            }
+        } }
+        (n, if ordinary { n } else { 0 }, fails)
+    }).collect();
+    let mut key_fails = 0usize;
+    for (n, nt, fails) in kres {
+        rep.evaluations += n;
+        rep.nontrivial += nt;
+        for (ob, detail, input, observed) in fails { key_fails += 1; rep.fail(&ob, detail, input, observed); }
+    }
+    if key_fails > 0 { for f in rep.failures.iter_mut().filter(|f| f.obligation.starts_with("dictionary-keys-")) { f.detail = format!("[{} documents of the key dimension fail in total in this run] {}", key_fails, f.detail); } }
+    rep.sample(format!("key dimension: {} hosts x 2 layouts x 2 xref formats, e.g. {:?}", kjobs.len(), { let (st, t, k, v) = kjobs[kjobs.len() / 2]; key_host(st, &types[t], &subs[k], &vals[v]) }));
+
+    // the provenance dimension: every script of less than `slen` steps on every document of gen::docs (quick set), every script of
+    // `slen` steps on every 7th of them (7 is coprime to the periods 5, 3, 2 of the id layouts, max_id slack and trailer extras
+    // in gen::docs, so that every combination of these is among them), shortest scripts first
+    let slen = if thorough { 4 } else { 3 };
+    let all_scripts = scripts(slen);
+    let sjobs: Vec<(usize, usize)> = (1..all_scripts.len()).flat_map(|j| (0..quick_docs.len()).map(move |i| (j, i))).filter(|&(j, i)| all_scripts[j].len() < slen || i % 7 == 0).collect();
+    let sres: Vec<Option<(usize, String, String)>> = sjobs.par_iter().map(|&(j, i)| check_script(&quick_docs[i], &all_scripts[j]).err()).collect();
+    let script_fails = sres.iter().filter(|r| r.is_some()).count();
+    for (&(j, i), r) in sjobs.iter().zip(sres) {
+        rep.case(!quick_docs[i].objects.is_empty());
+        if let Some((at, ob, d)) = r {
+            let steps = &all_scripts[j];
+            let detail = format!("[{} edit scripts fail in total in this run] a document that was {} does not come back from the {}: {}; steps: {}; starting from the document: {}", script_fails,
+                if steps[..at.min(steps.len())].iter().any(|c| *c == b'L') { "loaded and then edited" } else if steps[..at.min(steps.len())].iter().any(|c| *c == b'S') { "saved before and then edited" } else { "built and edited" },
+                if at < steps.len() { format!("save of step {}", at + 1) } else { "final save/load cycles after the last step".to_string() }, d, steps_text(steps), { let mut t = describe(&quick_docs[i]); t.truncate(200); t });
+            rep.fail(&format!("edited-document-{}", ob), detail, json!({"kind": "script", "spec": spec_json(&quick_docs[i]), "steps": String::from_utf8_lossy(steps)}), d);
+        }
+    }
+    rep.sample(format!("provenance: {} (script, document) pairs, scripts of at most {} steps over {:?}, {} documents", sjobs.len(), slen, String::from_utf8_lossy(STEPS), quick_docs.len()));
 
     // the nesting dimension, alone and as the last element of a history; everything from here on runs on fresh threads
     let dmax: usize = if thorough { 64 } else { 40 };
@@ -543,6 +733,10 @@ pub fn replay(v: &Value) -> Result<(), String> {
         Some("transport") => {
             let schedule: Vec<usize> = v["schedule"].as_array().cloned().unwrap_or_default().iter().map(|x| x.as_u64().unwrap_or(1) as usize).collect();
             check_document(&build(&spec_from_json(&v["spec"])), &schedule).map_err(|e| format!("{} (schedule {:?}): {}", e.0, schedule, e.1))
+        }
+        Some("script") => {
+            let steps = v["steps"].as_str().unwrap_or("").as_bytes().to_vec();
+            check_script(&spec_from_json(&v["spec"]), &steps).map_err(|(at, ob, d)| format!("{} ({}; steps: {}): {}", ob, if at < steps.len() { format!("at the save of step {}", at + 1) } else { "in the final cycles".to_string() }, steps_text(&steps), d))
         }
         Some("history") => {
             let cases: Vec<Case> = v["cases"].as_array().cloned().unwrap_or_default().iter().map(Case::from_json).collect();
